@@ -6,8 +6,8 @@ formulas.  Engine B: Lean model NdeVerif.Model.Networks (constructors of FCNN / 
 explicit weights, parameter table), theorems NdeVerif.Proofs.C19, correspondence with the real modules:
   * architecture: `[(type, in_features, out_features, bias)]` of the real module tree == the model's layer list,
     for random architectures, every legacy-argument combination and rejection paths (malformed sizes);
-  * forward: real `net(x)` == the composition of the module's OWN weights, evaluated (a) by the Lean driver for
-    small networks and (b) in Python for every network (tol 1e-10, float64);
+  * forward: real `net(x)` == the composition of the module's OWN weights, evaluated (a) by the Lean driver (model
+    `fcnnForward` / `resnetForward` over Float; weights travel as IEEE bit patterns) and (b) in Python (tol 1e-10, float64);
   * rows: `net(x)[i]` vs `net(x[i:i+1])` (1e-12) and bit-for-bit invariance of row i when another row is perturbed;
   * activations / MonomialNN against the documented formulas, evaluated independently with `math`;
   * parameters registered iff `trainable=True` (real objects vs the model table).
@@ -33,7 +33,7 @@ THEOREMS = ['buildLayers_eq_spec', 'fcnn_layers_shape', 'fcnn_linears_compatible
             'monomialRow_length', 'monomial_eq', 'monomial_eq_real', 'monomial_forward_rowwise', 'monomialInit_int',
             'monomialInit_raises', 'sigmoid_eq', 'swish_eq', 'aptx_eq', 'aptx_default', 'sinactv_eq', 'swish_gen_form',
             'trainable_iff', 'trainable_names']
-LEAN_FWD_MAX_WEIGHTS = 20000    # networks with at most this many scalars are also evaluated by the Lean driver
+LEAN_FWD_MAX_WEIGHTS = 20000    # networks with at most this many scalars are evaluated by the Lean driver (all in range)
 TOL = 1e-10
 TOL_ROW = 1e-12
 
@@ -652,43 +652,48 @@ def run_monomial(cases):
     return blocks, recs, failing
 
 
-def run_params(rng):
+PARAM_TABLE = [('tanh', []), ('sin', []), ('swish', ['beta']), ('aptx', ['alpha', 'beta', 'gamma'])]
+
+
+def param_cases(rng):
+    return [dict(kind=kind, trainable=tr, values={h: round(rng.uniform(-3, 3), 3) for h in hyper})
+            for kind, hyper in PARAM_TABLE for tr in (False, True)]
+
+
+def run_params(cases):
     """trainable clause on the real objects -> (driver blocks, real canonical lines, failures)"""
     import torch
     import torch.nn as nn
-    from neurodiffeq.networks import SinActv, Swish, APTx, FCNN
+    from neurodiffeq.networks import FCNN
     blocks, reals, failing = [], [], []
-    table = [('tanh', nn.Tanh, []), ('sin', SinActv, []), ('swish', Swish, ['beta']), ('aptx', APTx, ['alpha', 'beta', 'gamma'])]
-    for kind, cls, hyper in table:
-        for tr in (False, True):
-            vals = {h: round(rng.uniform(-3, 3), 3) for h in hyper}
-            m = cls(**vals, trainable=tr) if hyper else cls()
-            if not hyper and tr:
-                pass   # no `trainable` argument exists; the model row for (kind, true) is compared with the same object
-            names = [n for n, _ in m.named_parameters()]
-            case = dict(kind=kind, trainable=tr, values=vals)
-            want = hyper if (tr and hyper) else []
-            if names != want:
-                failing.append(dict(stream='trainable', case=case, violated=f'registered parameters {names} != {want}'))
-            for n, p in m.named_parameters():
-                if not (isinstance(p, nn.Parameter) and p.requires_grad and p.shape == () and abs(float(p) - vals[n]) < 1e-15):
-                    failing.append(dict(stream='trainable', case=case, violated=f'parameter {n}: {p!r} (requested {vals[n]})'))
-            for h in hyper:
-                a = getattr(m, h)
-                if not tr and (isinstance(a, torch.Tensor) or a != vals[h]):
-                    failing.append(dict(stream='trainable', case=case, violated=f'attribute {h} = {a!r} although trainable=False'))
-            if hyper:
-                # gradient reaches the parameters iff trainable; inside an FCNN every activation instance owns its parameters
-                net = FCNN(2, 1, hidden_units=(3, 3), actv=lambda: cls(**vals, trainable=tr)).double()
-                extra = [n for n, _ in net.named_parameters() if not n.endswith(('weight', 'bias'))]
-                wantx = [f'NN.{i}.{h}' for i in (1, 3) for h in hyper] if tr else []
-                if extra != wantx:
-                    failing.append(dict(stream='trainable', case=case, violated=f'FCNN parameters {extra} != {wantx}'))
-                net(torch.ones(2, 2, dtype=torch.float64)).sum().backward()
-                if tr and any(p.grad is None for n, p in net.named_parameters() if n in extra):
-                    failing.append(dict(stream='trainable', case=case, violated='no gradient reaches a trainable activation parameter'))
-            blocks.append(f'params {kind} {int(tr)}\n---')
-            reals.append((case, 'P ' + ','.join(names)))
+    for case in cases:
+        kind, tr, vals = case['kind'], case['trainable'], case['values']
+        cls, hyper = act_class(kind), dict(PARAM_TABLE)[kind]
+        # nn.Tanh and SinActv have no `trainable` argument: both rows of the model table are compared with the same object
+        m = cls(**vals, trainable=tr) if hyper else cls()
+        names = [n for n, _ in m.named_parameters()]
+        want = hyper if (tr and hyper) else []
+        if names != want:
+            failing.append(dict(stream='trainable', case=case, violated=f'registered parameters {names} != {want}'))
+        for n, p in m.named_parameters():
+            if not (isinstance(p, nn.Parameter) and p.requires_grad and p.shape == () and abs(float(p) - vals[n]) < 1e-15):
+                failing.append(dict(stream='trainable', case=case, violated=f'parameter {n}: {p!r} (requested {vals[n]})'))
+        for h in hyper:
+            a = getattr(m, h)
+            if not tr and (isinstance(a, torch.Tensor) or a != vals[h]):
+                failing.append(dict(stream='trainable', case=case, violated=f'attribute {h} = {a!r} although trainable=False'))
+        if hyper:
+            # gradient reaches the parameters iff trainable; inside an FCNN every activation instance owns its parameters
+            net = FCNN(2, 1, hidden_units=(3, 3), actv=lambda: cls(**vals, trainable=tr)).double()
+            extra = [n for n, _ in net.named_parameters() if not n.endswith(('weight', 'bias'))]
+            wantx = [f'NN.{i}.{h}' for i in (1, 3) for h in hyper] if tr else []
+            if extra != wantx:
+                failing.append(dict(stream='trainable', case=case, violated=f'FCNN parameters {extra} != {wantx}'))
+            net(torch.ones(2, 2, dtype=torch.float64)).sum().backward()
+            if tr and any(p.grad is None for n, p in net.named_parameters() if n in extra):
+                failing.append(dict(stream='trainable', case=case, violated='no gradient reaches a trainable activation parameter'))
+        blocks.append(f'params {kind} {int(tr)}\n---')
+        reals.append((case, 'P ' + ','.join(names)))
     return blocks, reals, failing
 
 
@@ -744,7 +749,7 @@ def check(tier, seed):
     s_blocks, s_recs, f, worst_act = run_activations(acases); failing += f
     mcases = monomial_cases(tier, rng)
     m_blocks, m_recs, f = run_monomial(mcases); failing += f
-    p_blocks, p_reals, f = run_params(rng); failing += f
+    p_blocks, p_reals, f = run_params(param_cases(rng)); failing += f
 
     all_blocks = a_blocks + f_blocks + s_blocks + m_blocks + p_blocks
     worst_lean = 0.0
@@ -836,8 +841,8 @@ def check(tier, seed):
         'Resnet: the deprecated size arguments are ignored unless hidden_units=None is passed explicitly, because the signature '
         'default is hidden_units=(32, 32) (theorem resnet_legacy_default_ignored; the code warns "Ignoring ..."); the property '
         'statement restricts the legacy clause to FCNN, so this is recorded, not reported as a violation',
-        f'networks with more than {LEAN_FWD_MAX_WEIGHTS} scalars are compared with the Python composition of their own weights only '
-        '(the Lean driver is an interpreter); every smaller one is evaluated by the Lean model as well',
+        f'every network with at most {LEAN_FWD_MAX_WEIGHTS} scalars (the quantified range needs at most 13214) is evaluated by the Lean '
+        'model from the module\'s own weights; the Python composition of the same weights is compared in addition',
     ]
     rep.notes.append('tests/test_networks.py::test_APTx fails at baseline because the TEST omits gamma=0.5 '
                      '(asserts (1+tanh x)*x for APTx()); APTx itself constructs and runs here and matches its docstring')
@@ -872,7 +877,7 @@ def replay(path):
     elif stream == 'monomial':
         _, _, failing = run_monomial([c])
     elif stream == 'trainable':
-        _, _, failing = run_params(random.Random(d.get('seed', 0)))
+        _, _, failing = run_params([c])
     else:
         print('unknown stream', stream)
         return 1
